@@ -63,6 +63,17 @@ def run(ctx):
 
     # ---- R2.2
     pa = fx.body("clap_builder::parser::parser::Parser::push_arg_values")
+    pa_top = pa
+    # `for raw_val in raw_vals { .. }` or `raw_vals.into_iter().try_for_each(|raw_val| { .. })`: the per-value steps are looked for in the loop body
+    loop_item = r"next\(into_iter\(raw_vals\)\)#Some\.0"
+    if not pa.calls_to(r"parse_ref$"):
+        for ch in pa.children:
+            feed = closure_feed(fx, ch)
+            if ch.calls_to(r"parse_ref$") and feed and feed[1].is_(r"Iterator>?::(try_for_each|for_each)$") and re.fullmatch(r"into_iter\(raw_vals\)", feed[2]) and ch.argc >= 2:
+                pa = ch
+                loop_item = re.escape(ch.local_name(2) or "arg2")
+                break
+    self_ = "self" if pa is pa_top else r"arg1\.\d+"
     seq = []
     for rx in (r"Cell<[^>]*>::set$|Cell::set$", r"parse_ref$", r"ArgMatcher::add_val_to$", r"ArgMatcher::add_index_to$"):
         cs = [c for c in pa.calls_to(rx) if not sp_macro(c.sp)]
@@ -73,14 +84,14 @@ def run(ctx):
         ok = all(pa.block_dominates(a.bb, b.bb) and a.bb != b.bb for a, b in zip(seq, seq[1:]))
         res.check(ok, "R2.2", "order", pa.where(), "index++ -> parse_ref -> add_val_to -> add_index_to", "push_arg_values no longer performs index++, parse, store value, store index in that order")
         st, pr, av, ai = seq
-        res.check(expr(pa, st.args[1]) == "Add(get(self.cur_idx),1)", "R2.2", "index-increment", st.where(), "cur_idx := cur_idx + 1 per value", "cur_idx updated with %s" % expr(pa, st.args[1]))
-        res.check(expr(pa, av.args[1]) == "get_id(arg)" and expr(pa, ai.args[1]) == "get_id(arg)", "R2.2", "same-arg", av.where(), "value and index stored under the same arg id", "value/index stored under different ids")
-        res.check(expr(pa, ai.args[2]) == "get(self.cur_idx)", "R2.2", "index-value", ai.where(), "stored index = current cur_idx", "stored index is %s" % expr(pa, ai.args[2]))
+        res.check(re.fullmatch(r"Add\(get\(%s\.cur_idx\),1\)" % self_, expr(pa, st.args[1])) is not None, "R2.2", "index-increment", st.where(), "cur_idx := cur_idx + 1 per value", "cur_idx updated with %s" % expr(pa, st.args[1]))
+        res.check(expr(pa, av.args[1]) == expr(pa, ai.args[1]) and re.fullmatch(r"get_id\((arg|arg1\.\d+)\)", expr(pa, av.args[1])) is not None, "R2.2", "same-arg", av.where(), "value and index stored under the same arg id", "value/index stored under different ids")
+        res.check(re.fullmatch(r"get\(%s\.cur_idx\)" % self_, expr(pa, ai.args[2])) is not None, "R2.2", "index-value", ai.where(), "stored index = current cur_idx", "stored index is %s" % expr(pa, ai.args[2]))
         raw = expr(pa, av.args[3])
         res.check(raw == expr(pa, pr.args[3]) or raw in expr(pa, pr.args[3]), "R2.2", "raw-equals-parsed-input", av.where(), "raw value stored = the string given to the value parser", "raw value stored (%s) differs from the parser input (%s)" % (raw, expr(pa, pr.args[3])))
         # loop: every value of raw_vals (for over the vector, no skip/take/filter)
         it = expr(pa, pr.args[3])
-        res.check(re.fullmatch(r"next\(into_iter\(raw_vals\)\)#Some\.0", it) is not None, "R2.2", "every-value", pr.where(), "loop visits every raw value once", "push_arg_values iterates %s" % it)
+        res.check(re.fullmatch(loop_item, it) is not None, "R2.2", "every-value", pr.where(), "loop visits every raw value once", "push_arg_values iterates %s" % it)
 
     # ---- R2.3
     n = 0
@@ -89,9 +100,10 @@ def run(ctx):
             if sp_macro(c.sp):
                 continue
             n += 1
-            cell, val = expr(b, c.args[0]), expr(b, c.args[1])
+            import panics as _P
+            cell, val = _P.resolved_operand(b, expr(b, c.args[0])), _P.resolved_operand(b, expr(b, c.args[1]))     # closure captures written in the function's terms
             ok = (cell == "self.cur_idx" and val == "Add(get(self.cur_idx),1)") or (b.q.endswith("parse_subcommand") and val == "get(self.cur_idx)" and cell.endswith(".cur_idx"))
-            res.check(ok, "R2.3", "cur_idx-write|%s" % b.q.rsplit("::", 1)[1], c.where(), "%s := %s" % (cell, val), "cur_idx written with %s := %s (indices must only grow by one per flag/value)" % (cell, val))
+            res.check(ok, "R2.3", "cur_idx-write|%s" % re.sub(r"::\{closure#\d+\}", "", b.q).rsplit("::", 1)[1], c.where(), "%s := %s" % (cell, val), "cur_idx written with %s := %s (indices must only grow by one per flag/value)" % (cell, val))
     res.floor("R2.3", "writes of cur_idx", n, 5)
 
     # ---- R2.4 verbatim values
